@@ -73,18 +73,17 @@ def allRet (a : AssertIn) : Bool := a.after == .ret && a.tearDown == .ret && a.c
 KeyboardInterrupt, outranks every other exception of the run) -/
 def failureClass (o : Outcome) : Bool := o == .failure || o == .error
 
-/-- a mismatch recorded by `expectThat` makes the test fail once it has finished — whatever else the test
-goes on to do (return, skip, expected failure, unexpected success, failure, error, interrupt; in the body,
-`tearDown` or a cleanup): never success / skip / expected failure / unexpected success.  (What a later
-stage does to the `MismatchError` that `assertThat` raised is the subject of C03; here only: if nothing
-else happens the run is a failure.)
+/-- a mismatch recorded by `expectThat` makes the test fail once it has finished — in whatever stage the
+expectation was recorded (`setUp` included, before or after its upcall to the base `setUp`: `AssertIn.place`) and whatever else the test goes on to do (return,
+skip, expected failure, unexpected success, failure, error, interrupt; in the rest of that stage, `tearDown` or a
+cleanup): never success / skip / expected failure / unexpected success.  In particular an expectation that failed
+in `setUp` is not forgotten when `setUp` then gives up with a skip or an expected failure (the test method and
+`tearDown` do not run then, the cleanups do, and the run is still reported as a failure).  (What a later stage does
+to the `MismatchError` that `assertThat` raised is the subject of C03; here only: if nothing else happens the run
+is a failure.)
 
-Scope of "makes the test fail once it has finished": the expectation is recorded in the test method (or
-later) of a run whose `setUp` returned normally, on an instance that carries no `force_failure` from an
-earlier run.  Outside that scope the code behaves differently and the clause makes no claim: an expectThat
-mismatch in `setUp` followed by a skip raised in `setUp` is reported as addSkip (the setUp-failed branch of
-`RunTest._run_core` does not look at `force_failure`), and `force_failure` survives `TestCase._reset()`, so a
-second run of the same instance fails again (M-Run models that flag as `ff0`). -/
+The instance carries no `force_failure` from an earlier run: `force_failure` survives `TestCase._reset()`, so a
+second run of the same instance fails again (M-Run models that flag as `ff0`; C03 judges those runs). -/
 def cFailsAfterwards : Input → Trace → Bool
   | .assert a, .assert o =>
     (if a.mismatch.isSome then
